@@ -20,7 +20,7 @@ N == Len(Traces)
 CfgOf(tr) == [impl |-> tr.case.impl, kinds |-> tr.case.kinds, linkm |-> tr.case.linkm,
               maskm |-> tr.case.maskm, devnull |-> tr.case.devnull]
 EnvOf(tr) == [proc |-> {}, srcfl |-> ToSet(tr.srcfl), lockfl |-> ToSet(tr.lockfl),
-              sharefl |-> ToSet(tr.sharefl), shared |-> tr.srcshared]
+              sharefl |-> ToSet(tr.sharefl), shared |-> tr.srcshared, flipfl |-> ToSet(tr.flipfl)]
 Envs  == TLCEval([i \in 1..N |-> EnvOf(Traces[i])])
 Progs == TLCEval([i \in 1..N |-> TLCEval(Prog(CfgOf(Traces[i]), EnvOf(Traces[i])))])
 
